@@ -136,7 +136,7 @@ fn hchunk_bytes(h: &HChunk, out: &mut Vec<u8>) {
 }
 
 /// Encodes one framed item as the reference peer would send it.
-fn fitem_bytes(enc: &mut PeerEnc, it: &FItem, ts: u32) -> Option<Vec<u8>> {
+pub fn fitem_bytes(enc: &mut PeerEnc, it: &FItem, ts: u32) -> Option<Vec<u8>> {
     Some(match it {
         FItem::Raw { type_id, body, msid } => {
             if *type_id == 1 {
@@ -194,19 +194,34 @@ fn fitem_bytes(enc: &mut PeerEnc, it: &FItem, ts: u32) -> Option<Vec<u8>> {
     })
 }
 
-enum Sess {
+pub enum Sess {
     S(ServerSession),
     C(ClientSession),
 }
 
-fn prepare(target: &Target) -> Result<(Sess, PeerEnc), String> {
+pub fn prepare(target: &Target) -> Result<(Sess, PeerEnc), String> {
+    prepare_recording(target).map(|(s, e, _)| (s, e))
+}
+
+/// Like `prepare`, also returning every packet the session emitted while being prepared
+/// (constructor included), so an observer can be primed with them.
+pub fn prepare_recording(target: &Target) -> Result<(Sess, PeerEnc, Vec<(Vec<u8>, bool)>), String> {
+    let mut rec: Vec<(Vec<u8>, bool)> = Vec::new();
+    let (s, e) = prepare_inner(target, &mut rec)?;
+    Ok((s, e, rec))
+}
+
+fn prepare_inner(target: &Target, rec: &mut Vec<(Vec<u8>, bool)>) -> Result<(Sess, PeerEnc), String> {
     let mut enc = PeerEnc::new();
     match target {
         Target::Server(prep) => {
-            let (mut s, _) = ServerSession::new(ServerSessionConfig::new()).map_err(|e| format!("ServerSession::new: {:?}", e))?;
+            let (mut s, init) = ServerSession::new(ServerSessionConfig::new()).map_err(|e| format!("ServerSession::new: {:?}", e))?;
+            rec.extend(split_server(init).packets);
             let mut ids: Vec<u32> = Vec::new();
-            let feed = |s: &mut ServerSession, b: Vec<u8>, ids: &mut Vec<u32>| -> Result<(), String> {
-                for e in split_server(s.handle_input(&b).map_err(|e| format!("preparation failed: {:?}", e))?).events {
+            let mut feed = |s: &mut ServerSession, b: Vec<u8>, ids: &mut Vec<u32>, rec: &mut Vec<(Vec<u8>, bool)>| -> Result<(), String> {
+                let out = split_server(s.handle_input(&b).map_err(|e| format!("preparation failed: {:?}", e))?);
+                rec.extend(out.packets);
+                for e in out.events {
                     match e {
                         ServerSessionEvent::ConnectionRequested { request_id, .. } | ServerSessionEvent::PublishStreamRequested { request_id, .. } | ServerSessionEvent::PlayStreamRequested { request_id, .. } => ids.push(request_id),
                         _ => {}
@@ -215,33 +230,42 @@ fn prepare(target: &Target) -> Result<(Sess, PeerEnc), String> {
                 Ok(())
             };
             if *prep >= 1 {
-                feed(&mut s, enc.send(&command("connect", 1.0, obj(vec![("app", st("live"))]), vec![]), 0, 0), &mut ids)?;
-                s.accept_request(ids.pop().ok_or("no connect request")?).map_err(|e| format!("{:?}", e))?;
-                feed(&mut s, enc.send(&command("createStream", 2.0, V::Null, vec![]), 0, 0), &mut ids)?;
+                feed(&mut s, enc.send(&command("connect", 1.0, obj(vec![("app", st("live"))]), vec![]), 0, 0), &mut ids, rec)?;
+                rec.extend(split_server(s.accept_request(ids.pop().ok_or("no connect request")?).map_err(|e| format!("{:?}", e))?).packets);
+                feed(&mut s, enc.send(&command("createStream", 2.0, V::Null, vec![]), 0, 0), &mut ids, rec)?;
             }
             if *prep == 2 {
-                feed(&mut s, enc.send(&command("publish", 0.0, V::Null, vec![st("key"), st("live")]), 1, 0), &mut ids)?;
-                s.accept_request(ids.pop().ok_or("no publish request")?).map_err(|e| format!("{:?}", e))?;
+                feed(&mut s, enc.send(&command("publish", 0.0, V::Null, vec![st("key"), st("live")]), 1, 0), &mut ids, rec)?;
+                rec.extend(split_server(s.accept_request(ids.pop().ok_or("no publish request")?).map_err(|e| format!("{:?}", e))?).packets);
             } else if *prep == 3 {
-                feed(&mut s, enc.send(&command("play", 0.0, V::Null, vec![st("key")]), 1, 0), &mut ids)?;
-                s.accept_request(ids.pop().ok_or("no play request")?).map_err(|e| format!("{:?}", e))?;
+                feed(&mut s, enc.send(&command("play", 0.0, V::Null, vec![st("key")]), 1, 0), &mut ids, rec)?;
+                rec.extend(split_server(s.accept_request(ids.pop().ok_or("no play request")?).map_err(|e| format!("{:?}", e))?).packets);
             }
             Ok((Sess::S(s), enc))
         }
         Target::Client(prep) => {
-            let (mut c, _) = ClientSession::new(ClientSessionConfig::new()).map_err(|e| format!("ClientSession::new: {:?}", e))?;
+            let (mut c, init) = ClientSession::new(ClientSessionConfig::new()).map_err(|e| format!("ClientSession::new: {:?}", e))?;
+            rec.extend(split_client(init).packets);
+            let one = |r: Result<ClientSessionResult, ClientSessionError>, rec: &mut Vec<(Vec<u8>, bool)>| -> Result<(), String> {
+                rec.extend(split_client(vec![r.map_err(|e| format!("{:?}", e))?]).packets);
+                Ok(())
+            };
+            let many = |r: Result<Vec<ClientSessionResult>, ClientSessionError>, rec: &mut Vec<(Vec<u8>, bool)>| -> Result<(), String> {
+                rec.extend(split_client(r.map_err(|e| format!("{:?}", e))?).packets);
+                Ok(())
+            };
             if *prep >= 1 {
-                c.request_connection("live".to_string()).map_err(|e| format!("{:?}", e))?;
-                c.handle_input(&enc.send(&command("_result", 1.0, V::Null, vec![obj(vec![("code", st("NetConnection.Connect.Success"))])]), 0, 0)).map_err(|e| format!("{:?}", e))?;
+                one(c.request_connection("live".to_string()), rec)?;
+                many(c.handle_input(&enc.send(&command("_result", 1.0, V::Null, vec![obj(vec![("code", st("NetConnection.Connect.Success"))])]), 0, 0)), rec)?;
             }
             if *prep == 2 {
-                c.request_publishing("key".to_string(), PublishRequestType::Live).map_err(|e| format!("{:?}", e))?;
-                c.handle_input(&enc.send(&command("_result", 2.0, V::Null, vec![num(1.0)]), 0, 0)).map_err(|e| format!("{:?}", e))?;
-                c.handle_input(&enc.send(&command("onStatus", 0.0, V::Null, vec![obj(vec![("code", st("NetStream.Publish.Start"))])]), 1, 0)).map_err(|e| format!("{:?}", e))?;
+                one(c.request_publishing("key".to_string(), PublishRequestType::Live), rec)?;
+                many(c.handle_input(&enc.send(&command("_result", 2.0, V::Null, vec![num(1.0)]), 0, 0)), rec)?;
+                many(c.handle_input(&enc.send(&command("onStatus", 0.0, V::Null, vec![obj(vec![("code", st("NetStream.Publish.Start"))])]), 1, 0)), rec)?;
             } else if *prep == 3 {
-                c.request_playback("key".to_string()).map_err(|e| format!("{:?}", e))?;
-                c.handle_input(&enc.send(&command("_result", 2.0, V::Null, vec![num(1.0)]), 0, 0)).map_err(|e| format!("{:?}", e))?;
-                c.handle_input(&enc.send(&command("onStatus", 0.0, V::Null, vec![obj(vec![("code", st("NetStream.Play.Start"))])]), 1, 0)).map_err(|e| format!("{:?}", e))?;
+                one(c.request_playback("key".to_string()), rec)?;
+                many(c.handle_input(&enc.send(&command("_result", 2.0, V::Null, vec![num(1.0)]), 0, 0)), rec)?;
+                many(c.handle_input(&enc.send(&command("onStatus", 0.0, V::Null, vec![obj(vec![("code", st("NetStream.Play.Start"))])]), 1, 0)), rec)?;
             }
             Ok((Sess::C(c), enc))
         }
@@ -311,7 +335,7 @@ fn app_call(s: &mut Sess, a: &AppCall, t: &mut Tally) {
 }
 
 /// Builds the byte stream of an unframed input (everything except Framed for sessions).
-fn flat_bytes(input: &Input) -> Vec<u8> {
+pub fn flat_bytes(input: &Input) -> Vec<u8> {
     match input {
         Input::Raw(b) => b.clone(),
         Input::Headers(hs) => {
